@@ -41,7 +41,13 @@ def load_module_functions(relpath, ns, required):
     """exec EVERY top-level function definition of the file into ns (so that private helpers a function relies
     on are available); only the `required` ones must exist and compile."""
     path = os.path.join(shim.REPO, relpath)
-    tree = ast.parse(open(path).read())
+    src = open(path).read()
+    tree = ast.parse(src)
+    # stdlib / sibling-module imports, private classes, namedtuples and constants the file defines at module level
+    # (shim's fail-closed binder: what cannot be evaluated stays unbound and raises NameError when used)
+    shim._bind_stdlib_imports(tree, path, ns)
+    fnames = {n.name for n in tree.body if isinstance(n, ast.FunctionDef)}
+    shim._bind_module_level(ast.parse(src), path, ns, reserved=fnames)
     found = set()
     for n in tree.body:
         if isinstance(n, ast.FunctionDef):
@@ -56,6 +62,8 @@ def load_module_functions(relpath, ns, required):
     missing = set(required) - found
     if missing:
         raise shim.TraceError('%s: function(s) %s not found' % (relpath, sorted(missing)))
+    # once more for module-level objects that needed the functions themselves (e.g. a functools.partial of one)
+    shim._bind_module_level(ast.parse(src), path, ns, reserved=fnames)
     return ns
 
 
